@@ -10,6 +10,9 @@ import (
 	"context"
 	"encoding/json"
 	"fmt"
+	"github.com/pdfcpu/pdfcpu/pkg/api"
+	"github.com/pdfcpu/pdfcpu/pkg/pdfcpu/model"
+	"github.com/pdfcpu/pdfcpu/pkg/pdfcpu/types"
 	"io"
 	"math/rand/v2"
 	"net"
@@ -45,9 +48,9 @@ func (c30) Assumptions() []string {
 func (c30) RealVsStub() map[string]string {
 	return map[string]string{
 		"revocationHTTPClient, revocationDialContext, validateRevocationIPs, revocationRedirect, validateRevocationURLString": "real (unexported, reached through an overlay-only export shim)",
-		"ImageBox.resource, imageBoxRemoteURL, remoteResource, imageBoxHTTPClient, imageBoxDialContext, imageBoxRedirect":    "real (reached through an overlay-only shim that builds a bare ImageBox)",
+		"ImageBox.resource, imageBoxRemoteURL, remoteResource, imageBoxHTTPClient, imageBoxDialContext, imageBoxRedirect":     "real (reached through an overlay-only shim that builds a bare ImageBox)",
 		"net/http Client and Transport": "real",
-		"DNS, TCP, remote servers":       "simulated (hooks in package net, net.Pipe, scripted HTTP/1.1 responder)",
+		"DNS, TCP, remote servers":      "simulated (hooks in package net, net.Pipe, scripted HTTP/1.1 responder)",
 	}
 }
 
@@ -60,21 +63,21 @@ type serverScript struct {
 }
 
 type Fetch struct {
-	Client  string                  `json:"client"` // revocation-get revocation-post image
-	URL     string                  `json:"url"`
-	DNS     map[string][][]string   `json:"dns"`     // host (lower case, no trailing dot) -> successive answer sets
-	Script  []serverScript          `json:"script"`  // n-th request arriving anywhere gets Script[n] (last repeats)
-	Allowed []string                `json:"allowed,omitempty"`
-	Proxy   bool                    `json:"proxy"`
-	Refuse  []int                   `json:"refuse,omitempty"` // indices of dial attempts that are answered with ECONNREFUSED
+	Client  string                `json:"client"` // revocation-get revocation-post image
+	URL     string                `json:"url"`
+	DNS     map[string][][]string `json:"dns"`    // host (lower case, no trailing dot) -> successive answer sets
+	Script  []serverScript        `json:"script"` // n-th request arriving anywhere gets Script[n] (last repeats)
+	Allowed []string              `json:"allowed,omitempty"`
+	Proxy   bool                  `json:"proxy"`
+	Refuse  []int                 `json:"refuse,omitempty"` // indices of dial attempts that are answered with ECONNREFUSED
 }
 
 const proxyIP = "93.184.216.199" // public, so that reaching it is recognisable as "the proxy", not as a private address
 
 type dialRec struct {
-	Addr     string
-	Exempt   bool // the request host is allow-listed (revocation client)
-	ViaHost  string
+	Addr    string
+	Exempt  bool // the request host is allow-listed (revocation client)
+	ViaHost string
 }
 
 type world struct {
@@ -318,6 +321,15 @@ func runFetch(f Fetch) (vs []core.Violation, w *world) {
 			client.CloseIdleConnections()
 		case "image":
 			primitives.VerifImageBoxFetch(f.URL, 1)
+		case "linkcheck":
+			// validation with link checking switched on fetches every URI action of the document
+			b, err := linkDoc(f.URL)
+			if err != nil {
+				panic("harness: " + err.Error())
+			}
+			conf := model.NewDefaultConfiguration()
+			conf.ValidateLinks, conf.Offline, conf.Timeout = true, false, 1
+			api.Validate(bytes.NewReader(b), conf)
 		}
 	}()
 	timedOut := false
@@ -455,9 +467,30 @@ func genURL(rng *rand.Rand) string {
 	return scheme + "://" + user + host + port + path
 }
 
+var linkBase []byte
+
+// linkDoc returns test.pdf with one link annotation whose URI action is uri (written by pdfcpu itself,
+// outside the simulated network).
+func linkDoc(uri string) ([]byte, error) {
+	if linkBase == nil {
+		b, err := os.ReadFile("/repo/pkg/testdata/test.pdf")
+		if err != nil {
+			return nil, err
+		}
+		linkBase = b
+	}
+	ann := model.NewLinkAnnotation(*types.NewRectangle(10, 10, 100, 40), 0, "link", "verif-link", "", 0, nil, nil, uri, nil, false, 0, model.BSSolid)
+	var out bytes.Buffer
+	conf := model.NewDefaultConfiguration()
+	if err := api.AddAnnotations(bytes.NewReader(linkBase), &out, []string{"1"}, ann, conf); err != nil {
+		return nil, err
+	}
+	return out.Bytes(), nil
+}
+
 func genFetch(rng *rand.Rand) Fetch {
 	f := Fetch{DNS: map[string][][]string{}}
-	f.Client = []string{"revocation-get", "revocation-get", "revocation-post", "image", "image"}[rng.IntN(5)]
+	f.Client = []string{"revocation-get", "revocation-get", "revocation-post", "image", "image", "linkcheck"}[rng.IntN(6)]
 	f.URL = genURL(rng)
 	f.Proxy = rng.IntN(2) == 0
 	if strings.HasPrefix(f.Client, "revocation") && rng.IntN(3) == 0 {
